@@ -12,7 +12,7 @@
 From AK Require Import Base.Prelude Bytes.Text Bytes.FabHeader Bytes.BinFile
   Reader.Select Reader.BoxRead Reader.Level Reader.ReadSpec
   Writers.Colander Writers.ColanderSpec Writers.CombineProofs Writers.Chef Writers.ChefProofs Writers.Pipeline
-  Plotfile.TextHeader Taste.Taste Plotfile.Abstract Writers.ColanderToolProofs Writers.ColanderPipeline Props.C05.
+  Plotfile.TextHeader Taste.Taste Plotfile.Abstract Writers.ColanderToolProofs Writers.ColanderPipeline Writers.Combine Writers.CombineSpec Writers.CombineToolProofs Writers.CombinePipeline Props.C05 Props.C06.
 
 (* Any finite sequence of operations, each of which preserves well-formedness
    and refines its pure counterpart, ends in a well-formed state whose
@@ -62,6 +62,37 @@ Theorem C14_colander_outputs_accepted : forall close ops pf pf' o limit lim,
   (t_data o && negb (t_headers o && t_shape o)) = false ->
   taste_good close o limit (pf_disk pf') = true.
 Proof. exact colander_outputs_taste_good. Qed.
+
+(* ... and for chains MIXING colander and combine runs (each combine with a
+   good plotfile on the current boxes): the chain succeeds, ends on the image of
+   the composed pure operations, every intermediate directory is the image of
+   a good plotfile - hence (C14_outputs_accepted) accepted by the validator. *)
+Theorem C14_strain_combine_chain : forall ops pf pf',
+  good pf -> Forall kop_ok ops -> kpure ops pf = Some pf' ->
+  run pdisk kop kop_tool ops (pf_disk pf) = Some (pf_disk pf') /\ good pf' /\
+  Forall (fun d => exists p, good p /\ d = pf_disk p) (states pdisk kop kop_tool ops (pf_disk pf)).
+Proof. exact strain_combine_pipeline. Qed.
+
+Theorem C14_outputs_accepted : forall close ops pf pf' o limit lim,
+  good pf -> Forall kop_ok ops -> kpure ops pf = Some pf' ->
+  eff_limit (g_max_level (pf_g pf')) limit = Some lim -> 0 <= lim ->
+  (t_data o && negb (t_headers o && t_shape o)) = false ->
+  taste_good close o limit (pf_disk pf') = true.
+Proof.
+  intros close ops pf pf' o limit lim Hg Hok H Heff Hlim Ho.
+  destruct (strain_combine_pipeline ops pf pf' Hg Hok H) as (_ & ((Hwf & _) & _)).
+  apply (Taste.DataProofs.taste_complete_nodata close pf' o limit lim Hwf Heff Hlim Ho).
+Qed.
+
+(* non-vacuity: combine the two example plotfiles of C06, strain the result, combine again *)
+Example C14_ex_mixed_chain :
+  exists pf', kpure [KCombine [bs "b"] [bs "c"] AK.Props.C06.ex3_B; KStrain [bs "c"; bs "b"] (Some 0);
+                     KCombine [bs "c"] [bs "c"] (colander_spec [bs "c"] 0 AK.Props.C06.ex3_B)] AK.Props.C06.ex3_A = Some pf'
+              /\ g_names (pf_g pf') = [bs "c"; bs "c"].
+Proof. eexists. split; vm_compute; reflexivity. Qed.
+
+Print Assumptions C14_strain_combine_chain.
+Print Assumptions C14_outputs_accepted.
 
 (* non-vacuity: two runs on the example plotfile of C05 *)
 Example C14_ex_chain :
